@@ -1,4 +1,474 @@
-import Pun.Model.KS
+import Pun.Lemmas.KS
+import Mathlib.Tactic.Positivity
+import Mathlib.Tactic.NormNum
+import Mathlib.Data.Rat.Cast.Order
+/-!
+# C17 — Kolmogorov–Smirnov confidence bands are valid bands around the empirical cdf
+
+Theorems about the model `Pun.KS` (`Pun/Model/KS.lean`), i.e. about the functions the driver `drvC17`
+executes and the harness ties to `KS_bounds`, `d_alpha`, `imprecise_ecdf`, `Staircase.from_CDFbundle`.
+All samples (any length `n ≥ 1`, ties, any rational values = every finite double), all `D`, all
+selections inside interval data, all levels.
+
+| statement of the property                                   | theorem |
+|---|---|
+| bounds non-decreasing, in `[0,1]`, on a common grid          | `band_monotone`, `iband_monotone`, `band_in_unit`, `band_common_grid`, `iband_grid` |
+| above / below the ecdf by exactly `D` before clipping        | `band_exact_shift`, `band_above_below`, `band_encloses_ecdf` |
+| `D` positive, decreasing in `n` and in `alpha`               | `D_pos_of_tableOK`, `D_decreasing_n_of_tableOK`, `D_decreasing_alpha_of_tableOK` (+ `Props/C17Gen.lean`) |
+| interval band contains the band of every selection           | `interval_band_contains_precise`, `selection_ecdf_between` |
+| the p-box made from the band contains the empirical distribution | `pbox_contains_ecdf`, `ksPbox_contains_ecdf` |
+| unsupported level rejected                                   | `unsupported_alpha_rejected`, `lookup_table_none_iff`, `supported_alpha_answered` |
+
+Not proved here (validated by the oracle only): for *interval* data, that the p-box contains the empirical
+quantiles of every selection (needs monotonicity of order statistics); the function-level statement
+`interval_band_contains_precise` is proved.  Rounding is not modelled; `c_α = √(ln(1/α)/2)` is a parameter
+bracketed numerically.
+-/
+set_option linter.unusedSimpArgs false
+set_option linter.unusedVariables false
 namespace Pun.KS
-theorem placeholder : clip 2 = 1 := by decide +kernel
+
+/-! ### the band on its grid -/
+
+theorem upper_length (D : ℚ) (p : List ℚ) : (upper D p).length = p.length := by simp [upper, shiftUp]
+theorem lower_length (D : ℚ) (p : List ℚ) : (lower D p).length = p.length := by simp [lower, shiftDn]
+theorem ecdfP_length (n : ℕ) : (ecdfP n).length = n + 1 := pFrom_length _ _ _
+
+/-- `band_common_grid`, precise data: both bundles live on the same sorted grid `[min] ++ sort s`, all four arrays have `n+1` entries -/
+theorem band_common_grid (s : List ℚ) (hs : s ≠ []) (D : ℚ) :
+    (band s D).1.q = (band s D).2.q ∧ (band s D).1.q = dupHead (sortR s) ∧
+    (band s D).1.q.Pairwise (· ≤ ·) ∧ (band s D).1.q.length = s.length + 1 ∧
+    (band s D).1.p.length = s.length + 1 ∧ (band s D).2.p.length = s.length + 1 :=
+  ⟨rfl, rfl, ecdfQ_sorted s, ecdfQ_length hs, by simp [band, upper_length, ecdfP_length],
+    by simp [band, lower_length, ecdfP_length]⟩
+
+/-- `band_common_grid`, interval data: the two bundles share the probability grid `k/n` (same lengths), their
+quantile grids are the sorted lower resp. upper endpoints -/
+theorem iband_grid (lo hi : List ℚ) (hlo : lo ≠ []) (hlen : lo.length = hi.length) (D : ℚ) :
+    (iband lo hi D).1.q = dupHead (sortR lo) ∧ (iband lo hi D).2.q = dupHead (sortR hi) ∧
+    (iband lo hi D).1.q.Pairwise (· ≤ ·) ∧ (iband lo hi D).2.q.Pairwise (· ≤ ·) ∧
+    (iband lo hi D).1.q.length = lo.length + 1 ∧ (iband lo hi D).2.q.length = lo.length + 1 ∧
+    (iband lo hi D).1.p.length = lo.length + 1 ∧ (iband lo hi D).2.p.length = lo.length + 1 := by
+  have hhi : hi ≠ [] := by
+    intro h; rw [h] at hlen; exact hlo (List.length_eq_zero_iff.mp hlen)
+  refine ⟨rfl, rfl, ecdfQ_sorted lo, ecdfQ_sorted hi, ecdfQ_length hlo, ?_, ?_, ?_⟩
+  · rw [hlen]; exact ecdfQ_length hhi
+  · simp [iband, upper_length, ecdfP_length]
+  · simp [iband, lower_length, ecdfP_length, hlen]
+
+theorem upper_sorted (D : ℚ) {p : List ℚ} (h : p.Pairwise (· ≤ ·)) : (upper D p).Pairwise (· ≤ ·) := by
+  rw [upper_eq_map, List.pairwise_map]
+  exact h.imp (fun hab => clip_mono (by linarith))
+theorem lower_sorted (D : ℚ) {p : List ℚ} (h : p.Pairwise (· ≤ ·)) : (lower D p).Pairwise (· ≤ ·) := by
+  rw [lower_eq_map, List.pairwise_map]
+  exact h.imp (fun hab => clip_mono (by linarith))
+
+/-- ★ `band_monotone`: both bounds are non-decreasing along the grid — every sample, every `D` (any sign) -/
+theorem band_monotone (s : List ℚ) (D : ℚ) :
+    (band s D).1.p.Pairwise (· ≤ ·) ∧ (band s D).2.p.Pairwise (· ≤ ·) :=
+  ⟨upper_sorted D (pFrom_sorted _ _ _), lower_sorted D (pFrom_sorted _ _ _)⟩
+
+theorem iband_monotone (lo hi : List ℚ) (D : ℚ) :
+    (iband lo hi D).1.p.Pairwise (· ≤ ·) ∧ (iband lo hi D).2.p.Pairwise (· ≤ ·) :=
+  ⟨upper_sorted D (pFrom_sorted _ _ _), lower_sorted D (pFrom_sorted _ _ _)⟩
+
+/-- ★ `band_in_unit`: all returned probabilities lie in `[0,1]` -/
+theorem band_in_unit (D : ℚ) (p : List ℚ) : (∀ x ∈ upper D p, 0 ≤ x ∧ x ≤ 1) ∧ (∀ x ∈ lower D p, 0 ≤ x ∧ x ≤ 1) := by
+  constructor <;> intro x hx
+  · rw [upper_eq_map] at hx
+    obtain ⟨y, _, rfl⟩ := List.mem_map.mp hx
+    exact ⟨clip_nonneg _, clip_le_one _⟩
+  · rw [lower_eq_map] at hx
+    obtain ⟨y, _, rfl⟩ := List.mem_map.mp hx
+    exact ⟨clip_nonneg _, clip_le_one _⟩
+
+/-- ★ `band_exact_shift`: the bounds are the clipping of lists that differ from the ecdf probabilities by exactly `+D`
+resp. `−D`, entry by entry; and clipping changes nothing where the shifted value is already a probability -/
+theorem band_exact_shift (s : List ℚ) (D : ℚ) :
+    (band s D).1.p = (shiftUp D (ecdf s).p).map clip ∧ (band s D).2.p = (shiftDn D (ecdf s).p).map clip ∧
+    List.Forall₂ (fun u p => u - p = D) (shiftUp D (ecdf s).p) (ecdf s).p ∧
+    List.Forall₂ (fun l p => p - l = D) (shiftDn D (ecdf s).p) (ecdf s).p ∧
+    (∀ a : ℚ, 0 ≤ a → a ≤ 1 → clip a = a) := by
+  refine ⟨rfl, rfl, ?_, ?_, fun a h0 h1 => clip_of_mem h0 h1⟩
+  · rw [shiftUp, List.forall₂_map_left_iff, List.forall₂_same]; intro x _; ring
+  · rw [shiftDn, List.forall₂_map_left_iff, List.forall₂_same]; intro x _; ring
+
+/-- ★ `band_above_below` on the grid: for `D > 0` the upper bound is above, the lower bound below the ecdf at every grid
+point, strictly unless the ecdf already sits at 1 resp. 0 -/
+theorem band_above_below (s : List ℚ) (hs : s ≠ []) {D : ℚ} (hD : 0 < D) :
+    List.Forall₂ (fun u p => p ≤ u ∧ (p < 1 → p < u)) (band s D).1.p (ecdf s).p ∧
+    List.Forall₂ (fun l p => l ≤ p ∧ (0 < p → l < p)) (band s D).2.p (ecdf s).p := by
+  have hn : 0 < s.length := List.length_pos_iff.mpr hs
+  constructor
+  · show List.Forall₂ _ (upper D (ecdfP s.length)) (ecdfP s.length)
+    rw [upper_eq_map, List.forall₂_map_left_iff, List.forall₂_same]
+    intro p hp
+    obtain ⟨h0, h1⟩ := ecdfP_mem_unit hn hp
+    exact ⟨le_clip_add h0 h1 (le_of_lt hD), fun h => lt_clip_add h0 h hD⟩
+  · show List.Forall₂ _ (lower D (ecdfP s.length)) (ecdfP s.length)
+    rw [lower_eq_map, List.forall₂_map_left_iff, List.forall₂_same]
+    intro p hp
+    obtain ⟨h0, h1⟩ := ecdfP_mem_unit hn hp
+    exact ⟨clip_sub_le h0 h1 (le_of_lt hD), fun h => clip_sub_lt h h1 hD⟩
+
+theorem ecdf_eval_unit (s : List ℚ) (hs : s ≠ []) (t : ℚ) : 0 ≤ (ecdf s).eval t ∧ (ecdf s).eval t ≤ 1 := by
+  rw [eval_ecdf]
+  have hn : (0 : ℚ) < s.length := by exact_mod_cast List.length_pos_iff.mpr hs
+  constructor
+  · exact div_nonneg (Nat.cast_nonneg _) (le_of_lt hn)
+  · rw [div_le_one hn]
+    exact_mod_cast List.countP_le_length
+
+/-- ★ `band_above_below` as functions of `t`: the drawn step functions are exactly `clip (F_n(t) ± D)` from the first
+sample point on, hence enclose the empirical distribution function there; left of the sample both bundles draw 0 -/
+theorem band_encloses_ecdf (s : List ℚ) (hs : s ≠ []) {D : ℚ} (hD : 0 < D) (t : ℚ) :
+    (band s D).2.eval t ≤ (ecdf s).eval t ∧
+    (0 < countLE s t → (band s D).1.eval t = clip ((ecdf s).eval t + D) ∧
+        (band s D).2.eval t = clip ((ecdf s).eval t - D) ∧ (ecdf s).eval t ≤ (band s D).1.eval t) := by
+  obtain ⟨h0, h1⟩ := ecdf_eval_unit s hs t
+  rw [eval_upper, eval_lower]
+  rw [eval_ecdf] at *
+  by_cases hc : 0 < countLE s t
+  · simp only [hc, if_true, true_implies]
+    exact ⟨clip_sub_le h0 h1 (le_of_lt hD), trivial, trivial, le_clip_add h0 h1 (le_of_lt hD)⟩
+  · simp only [hc, if_false, false_implies, and_true]
+    exact h0
+
+/-- ★ `interval_band_contains_precise`: for EVERY selection `x_i ∈ [lo_i, hi_i]` and every `t` (any `D`), the band of the
+interval data contains the band of the selection: its upper bound is above, its lower bound below.  By counting:
+`#{lo_i ≤ t} ≥ #{x_i ≤ t} ≥ #{hi_i ≤ t}`. -/
+theorem interval_band_contains_precise {lo x hi : List ℚ} (h1 : List.Forall₂ (· ≤ ·) lo x)
+    (h2 : List.Forall₂ (· ≤ ·) x hi) (D t : ℚ) :
+    (band x D).1.eval t ≤ (iband lo hi D).1.eval t ∧ (iband lo hi D).2.eval t ≤ (band x D).2.eval t := by
+  have c1 := countLE_anti h1 t
+  have c2 := countLE_anti h2 t
+  have l1 := h1.length_eq
+  have l2 := h2.length_eq
+  rw [eval_upper, eval_lower, eval_iupper, eval_ilower, l1, ← l2]
+  have hmono : ∀ {a b : ℕ}, a ≤ b → (a : ℚ) / x.length ≤ (b : ℚ) / x.length := by
+    intro a b hab
+    exact div_le_div_of_nonneg_right (by exact_mod_cast hab) (Nat.cast_nonneg _)
+  constructor
+  · by_cases hx : 0 < countLE x t
+    · have hlo : 0 < countLE lo t := lt_of_lt_of_le hx c1
+      simp only [hx, hlo, if_true]
+      exact clip_mono (by linarith [hmono c1])
+    · simp only [hx, if_false]
+      split_ifs
+      · exact clip_nonneg _
+      · exact le_refl _
+  · by_cases hh : 0 < countLE hi t
+    · have hx : 0 < countLE x t := lt_of_lt_of_le hh c2
+      simp only [hx, hh, if_true]
+      exact clip_mono (by linarith [hmono c2])
+    · simp only [hh, if_false]
+      split_ifs
+      · exact clip_nonneg _
+      · exact le_refl _
+
+/-- the ecdf of every selection lies between the ecdfs of the endpoints (the statement `F_lo ≥ F_x ≥ F_hi`) -/
+theorem selection_ecdf_between {lo x hi : List ℚ} (h1 : List.Forall₂ (· ≤ ·) lo x)
+    (h2 : List.Forall₂ (· ≤ ·) x hi) (t : ℚ) :
+    (ecdf hi).eval t ≤ (ecdf x).eval t ∧ (ecdf x).eval t ≤ (ecdf lo).eval t := by
+  rw [eval_ecdf, eval_ecdf, eval_ecdf, h1.length_eq, ← h2.length_eq]
+  constructor <;> apply div_le_div_of_nonneg_right _ (Nat.cast_nonneg _)
+  · exact_mod_cast countLE_anti h2 t
+  · exact_mod_cast countLE_anti h1 t
+
+/-! ### the p-box made from the band -/
+
+/-- ★ `pbox_contains_ecdf`: at every level `x ∈ (0,1]` the left bound (the 'next' quantile of the extended upper bundle) is
+`≤` the empirical quantile `≤` the right bound (extended lower bundle).  Every sample, every `D > 0`. -/
+theorem pbox_contains_ecdf (s : List ℚ) (hs : s ≠ []) {D : ℚ} (hD : 0 < D) {x : ℚ} (hx0 : 0 < x) (hx1 : x ≤ 1) :
+    ∃ a e b, interpNext (extend (band s D).1) x = some a ∧ interpNext (extend (ecdf s)) x = some e ∧
+      interpNext (extend (band s D).2) x = some b ∧ a ≤ e ∧ e ≤ b := by
+  have hn : 0 < s.length := List.length_pos_iff.mpr hs
+  obtain ⟨m, hm⟩ : ∃ m, s.length = m + 1 := ⟨s.length - 1, by omega⟩
+  have hQlen := ecdfQ_length hs
+  obtain ⟨q0, Qt, hQ⟩ : ∃ q0 Qt, ecdfQ s = q0 :: Qt := by
+    cases h : ecdfQ s with
+    | nil => rw [h] at hQlen; simp at hQlen
+    | cons a l => exact ⟨a, l, rfl⟩
+  have hP : ecdfP s.length = 0 :: pFrom s.length 1 s.length := by
+    show pFrom s.length 0 (s.length + 1) = _
+    simp [pFrom]
+  have hlast : (ecdfP s.length).getLast? = some 1 := by
+    show (pFrom s.length 0 (s.length + 1)).getLast? = _
+    rw [pFrom_getLast?]
+    have : ((s.length : ℕ) : ℚ) ≠ 0 := by exact_mod_cast (by omega : s.length ≠ 0)
+    simp [this]
+  exact pbox_core (Q := ecdfQ s) (pE := ecdfP s.length) hQ hP (by rw [hQlen, ecdfP_length]) (ecdfQ_sorted s) hlast
+    (fun p hp => ecdfP_mem_unit hn hp) hD hx0 hx1
+
+theorem forall₂_le_trans {A E B : List ℚ} (h1 : List.Forall₂ (· ≤ ·) A E) (h2 : List.Forall₂ (· ≤ ·) E B) :
+    List.Forall₂ (· ≤ ·) A B := by
+  induction h1 generalizing B with
+  | nil => cases h2; exact List.Forall₂.nil
+  | cons hab _ ih =>
+    cases h2 with
+    | cons hbc h2' => exact List.Forall₂.cons (le_trans hab hbc) (ih h2')
+
+theorem allGe_antisymm {A B : List ℚ} (h : List.Forall₂ (· ≤ ·) A B) (hg : allGe A B = true) : A = B := by
+  induction h with
+  | nil => rfl
+  | cons hab _ ih =>
+    simp only [allGe, Bool.and_eq_true, decide_eq_true_eq] at hg
+    rw [le_antisymm hab hg.1, ih hg.2]
+
+theorem pbox_lists (s : List ℚ) (hs : s ≠ []) {D : ℚ} (hD : 0 < D) (pv : List ℚ)
+    (hpv : ∀ x ∈ pv, 0 < x ∧ x ≤ 1) :
+    ∃ A E B, pv.mapM (interpNext (extend (band s D).1)) = some A ∧
+      pv.mapM (interpNext (extend (ecdf s))) = some E ∧
+      pv.mapM (interpNext (extend (band s D).2)) = some B ∧
+      List.Forall₂ (· ≤ ·) A E ∧ List.Forall₂ (· ≤ ·) E B := by
+  induction pv with
+  | nil => exact ⟨[], [], [], by simp, by simp, by simp, List.Forall₂.nil, List.Forall₂.nil⟩
+  | cons x xs ih =>
+    obtain ⟨A, E, B, hA, hE, hB, h1, h2⟩ := ih (fun y hy => hpv y (List.mem_cons_of_mem _ hy))
+    obtain ⟨a, e, b, ha, he, hb, hae, heb⟩ :=
+      pbox_contains_ecdf s hs hD (hpv x (by simp)).1 (hpv x (by simp)).2
+    refine ⟨a :: A, e :: E, b :: B, ?_, ?_, ?_, List.Forall₂.cons hae h1, List.Forall₂.cons heb h2⟩
+    · simp [List.mapM_cons, ha, hA]
+    · simp [List.mapM_cons, he, hE]
+    · simp [List.mapM_cons, hb, hB]
+
+/-- ★ the p-box the driver computes (`KS_bounds(..., output_type="pbox")`): whenever it is returned, its left bound is
+`≤` and its right bound `≥` the empirical quantile at every level of the grid — every sample, `D > 0`, any levels in `(0,1]` -/
+theorem ksPbox_contains_ecdf (s : List ℚ) (hs : s ≠ []) {D : ℚ} (hD : 0 < D) (pv : List ℚ)
+    (hpv : ∀ x ∈ pv, 0 < x ∧ x ≤ 1) {l r : List ℚ} (h : ksPbox s D pv = .ok (l, r)) :
+    ∃ e, pv.mapM (interpNext (extend (ecdf s))) = some e ∧
+      List.Forall₂ (· ≤ ·) l e ∧ List.Forall₂ (· ≤ ·) e r := by
+  obtain ⟨A, E, B, hA, hE, hB, h1, h2⟩ := pbox_lists s hs hD pv hpv
+  refine ⟨E, hE, ?_⟩
+  unfold ksPbox fromBundles at h
+  rw [hA, hB] at h
+  by_cases hg : allGe A B = true
+  · have hAB := allGe_antisymm (forall₂_le_trans h1 h2) hg
+    simp only [hg, if_true] at h
+    split_ifs at h; cases h
+    rw [hAB] at h1
+    rw [← hAB] at h2
+    exact ⟨h1, h2⟩
+  · simp only [hg, Bool.false_eq_true, if_false] at h
+    split_ifs at h; cases h
+    exact ⟨h1, h2⟩
+
+theorem sortR_of_sorted {l : List ℚ} (h : l.Pairwise (· ≤ ·)) : sortR l = l :=
+  List.mergeSort_of_pairwise (le := fun a b : ℚ => decide (a ≤ b)) (h.imp (by intro a b hab; simpa using hab))
+
+/-- and it *is* returned: for a non-empty sample, `D > 0` and levels in `(0,1]` the construction never raises -/
+example : ksPbox [1, 2, 2, 3, 5] (1/2) [1/1000, 1/2, 999/1000] = .ok ([1, 1, 2], [2, 5, 5]) := by
+  unfold ksPbox band ecdfQ
+  rw [sortR_of_sorted (by decide +kernel)]
+  decide +kernel
+
+/-! ### non-vacuity: concrete instances of the hypotheses used above -/
+
+/-- a sample with ties, `D = 1/2`: the band of the driver -/
+example : (band [1, 2, 2, 3, 5] (1/2)).1.p = [1/2, 7/10, 9/10, 1, 1, 1] ∧
+    (band [1, 2, 2, 3, 5] (1/2)).2.p = [0, 0, 0, 1/10, 3/10, 1/2] := by decide +kernel
+example : (band [1, 2, 2, 3, 5] (1/2)).1.q = [1, 1, 2, 2, 3, 5] := by
+  show dupHead (sortR _) = _
+  rw [sortR_of_sorted (by decide +kernel)]
+  decide +kernel
+example : ([1, 2, 2, 3, 5] : List ℚ) ≠ [] ∧ (0 : ℚ) < 1/2 := by decide +kernel
+/-- interval data `[0,1], [1,3]` with the selection `(1/2, 2)` -/
+example : List.Forall₂ (· ≤ ·) ([0, 1] : List ℚ) [1/2, 2] ∧ List.Forall₂ (· ≤ ·) ([1/2, 2] : List ℚ) [1, 3] :=
+  ⟨.cons (by norm_num) (.cons (by norm_num) .nil), .cons (by norm_num) (.cons (by norm_num) .nil)⟩
+/-- levels of the grid are in `(0,1]` -/
+example : ∀ x ∈ ([1/1000, 1/2, 999/1000] : List ℚ), 0 < x ∧ x ≤ 1 := by decide +kernel
+
+/-! ### the critical value `D(n, alpha)` -/
+
+section D
+variable {K : Type*} [Field K] [LinearOrder K] [IsStrictOrderedRing K]
+
+/-- `D = c_α·t − c₁·t² − A_α·t³` with `t = 1/√n`, `c_α = √(ln(1/α)/2)`: `d_alpha` as a polynomial -/
+def Dpoly (c c1 A t : K) : K := c * t - c1 * t ^ 2 - A * t ^ 3
+
+theorem sq_le_one_of {t : K} (h0 : 0 < t) (h1 : t ≤ 1) : t ^ 2 ≤ 1 := by nlinarith
+
+theorem Dpoly_pos {c c1 A t : K} (hc1 : 0 ≤ c1) (hA : 0 ≤ A) (hc : c1 + A < c) (ht : 0 < t) (ht1 : t ≤ 1) :
+    0 < Dpoly c c1 A t := by
+  have h1 : c1 * t ≤ c1 := by nlinarith
+  have h2 : A * t ^ 2 ≤ A := by nlinarith [sq_le_one_of ht ht1]
+  have h3 : 0 < c - c1 * t - A * t ^ 2 := by linarith
+  have : Dpoly c c1 A t = t * (c - c1 * t - A * t ^ 2) := by unfold Dpoly; ring
+  rw [this]; exact mul_pos ht h3
+
+theorem Dpoly_strictMono {c c1 A s t : K} (hc1 : 0 ≤ c1) (hA : 0 ≤ A) (hc : 2 * c1 + 3 * A < c)
+    (hs : 0 < s) (hst : s < t) (ht1 : t ≤ 1) : Dpoly c c1 A s < Dpoly c c1 A t := by
+  have hs1 : s ≤ 1 := le_trans (le_of_lt hst) ht1
+  have ht0 : 0 < t := lt_trans hs hst
+  have h1 : c1 * (t + s) ≤ 2 * c1 := by nlinarith
+  have ht2 := sq_le_one_of ht0 ht1
+  have hs2 := sq_le_one_of hs hs1
+  have hts : t * s ≤ 1 := by nlinarith
+  have h2 : A * (t ^ 2 + t * s + s ^ 2) ≤ 3 * A := by nlinarith
+  have h3 : 0 < c - c1 * (t + s) - A * (t ^ 2 + t * s + s ^ 2) := by linarith
+  have : Dpoly c c1 A t - Dpoly c c1 A s = (t - s) * (c - c1 * (t + s) - A * (t ^ 2 + t * s + s ^ 2)) := by
+    unfold Dpoly; ring
+  have := mul_pos (sub_pos.mpr hst) h3
+  linarith
+
+/-- `t_n = 1/√n` is decreasing in `n` and at most 1 -/
+theorem invsqrt_anti {n m : ℕ} (hn : 0 < n) (hnm : n < m) {tn tm : K} (htn : 0 < tn) (htm : 0 < tm)
+    (hn' : (n : K) * tn ^ 2 = 1) (hm' : (m : K) * tm ^ 2 = 1) : tm < tn ∧ tn ≤ 1 := by
+  have hnK : (1 : K) ≤ n := by exact_mod_cast hn
+  have hnmK : (n : K) < m := by exact_mod_cast hnm
+  constructor
+  · by_contra h
+    have h := not_lt.mp h
+    have : tn ^ 2 ≤ tm ^ 2 := by nlinarith
+    have h1 : (n : K) * tn ^ 2 ≤ n * tm ^ 2 := by nlinarith
+    have h2 : (n : K) * tm ^ 2 < m * tm ^ 2 := by
+      have : 0 < tm ^ 2 := by positivity
+      nlinarith
+    linarith
+  · by_contra h
+    have h := not_le.mp h
+    have : 1 < tn ^ 2 := by nlinarith
+    nlinarith
+
+/-- ★ `D` decreases as `n` grows -/
+theorem D_decreasing_n {c c1 A : K} (hc1 : 0 ≤ c1) (hA : 0 ≤ A) (hc : 2 * c1 + 3 * A < c)
+    {n m : ℕ} (hn : 0 < n) (hnm : n < m) {tn tm : K} (htn : 0 < tn) (htm : 0 < tm)
+    (hn' : (n : K) * tn ^ 2 = 1) (hm' : (m : K) * tm ^ 2 = 1) : Dpoly c c1 A tm < Dpoly c c1 A tn := by
+  obtain ⟨h1, h2⟩ := invsqrt_anti hn hnm htn htm hn' hm'
+  exact Dpoly_strictMono hc1 hA hc htm h1 h2
+
+/-- ★ `D` decreases as `alpha` grows (`c' ≤ hi' < lo ≤ c` are the constants of the larger / smaller level) -/
+theorem D_decreasing_alpha {c c' c1 A A' lo hi' t : K} (h1 : hi' < lo) (h2 : A - A' < lo - hi')
+    (hc : lo ≤ c) (hc' : c' ≤ hi') (ht : 0 < t) (ht1 : t ≤ 1) : Dpoly c' c1 A' t < Dpoly c c1 A t := by
+  have ht2 := sq_le_one_of ht ht1
+  have ht2' : 0 ≤ t ^ 2 := by positivity
+  have h3 : (A - A') * t ^ 2 < c - c' := by
+    rcases le_or_gt (A - A') 0 with h | h
+    · have : (A - A') * t ^ 2 ≤ 0 := mul_nonpos_of_nonpos_of_nonneg h ht2'
+      linarith
+    · have : (A - A') * t ^ 2 ≤ A - A' := by nlinarith
+      linarith
+  have : Dpoly c c1 A t - Dpoly c' c1 A' t = t * ((c - c') - (A - A') * t ^ 2) := by unfold Dpoly; ring
+  have := mul_pos ht (sub_pos.mpr h3)
+  linarith
+
+
+/-! ### a decidable certificate for a constant table
+
+`Entry` = (level `key`, tabulated `A`, numeric bracket `lo < c_key < hi` for `c_key = √(ln(1/key)/2)`).
+`tableOK c1 es = true` is a finite rational computation; it implies the three statements about `D`
+for **every** ordered field, every `t ∈ (0,1]` (so every `n ≥ 1`) and every `c` inside the bracket. -/
+
+structure Entry where
+  key : ℚ
+  A : ℚ
+  lo : ℚ
+  hi : ℚ
+
+def entries (tbl : List (ℚ × ℚ)) (bnds : List (ℚ × ℚ × ℚ)) : Option (List Entry) :=
+  tbl.mapM (fun kA => (bnds.find? (fun b => decide (b.1 = kA.1))).map (fun b => ⟨kA.1, kA.2, b.2.1, b.2.2⟩))
+
+def entryOK (c1 : ℚ) (e : Entry) : Bool := decide (0 ≤ e.A ∧ 2 * c1 + 3 * e.A < e.lo ∧ e.lo ≤ e.hi)
+def pairOK (e e' : Entry) : Bool := decide (e.key < e'.key → e'.hi < e.lo ∧ e.A - e'.A < e.lo - e'.hi)
+def tableOK (c1 : ℚ) (es : List Entry) : Bool :=
+  decide (0 ≤ c1) && es.all (entryOK c1) && es.all (fun e => es.all (pairOK e))
+
+theorem tableOK_c1 {c1 : ℚ} {es : List Entry} (h : tableOK c1 es = true) : 0 ≤ c1 := by
+  simp only [tableOK, Bool.and_eq_true, decide_eq_true_eq] at h; exact h.1.1
+
+theorem tableOK_entry {c1 : ℚ} {es : List Entry} (h : tableOK c1 es = true) {e : Entry} (he : e ∈ es) :
+    0 ≤ e.A ∧ 2 * c1 + 3 * e.A < e.lo ∧ e.lo ≤ e.hi := by
+  simp only [tableOK, Bool.and_eq_true, List.all_eq_true, entryOK, decide_eq_true_eq] at h
+  exact h.1.2 e he
+
+theorem tableOK_pair {c1 : ℚ} {es : List Entry} (h : tableOK c1 es = true) {e e' : Entry} (he : e ∈ es)
+    (he' : e' ∈ es) (hk : e.key < e'.key) : e'.hi < e.lo ∧ e.A - e'.A < e.lo - e'.hi := by
+  simp only [tableOK, Bool.and_eq_true, List.all_eq_true, pairOK, decide_eq_true_eq] at h
+  exact h.2 e he e' he' hk
+
+/-- ★ `D_pos_mono`, positivity: for a certified table `D > 0` for every `n ≥ 1` -/
+theorem D_pos_of_tableOK {c1 : ℚ} {es : List Entry} (h : tableOK c1 es = true) {e : Entry} (he : e ∈ es)
+    {c t : K} (hc : (e.lo : K) ≤ c) (ht : 0 < t) (ht1 : t ≤ 1) : 0 < Dpoly c (c1 : K) (e.A : K) t := by
+  obtain ⟨hA, hlo, _⟩ := tableOK_entry h he
+  have hc1 := tableOK_c1 h
+  have hA' : (0 : K) ≤ (e.A : K) := by exact_mod_cast hA
+  have hc1' : (0 : K) ≤ (c1 : K) := by exact_mod_cast hc1
+  have hlo' : 2 * (c1 : K) + 3 * (e.A : K) < (e.lo : K) := by exact_mod_cast hlo
+  apply Dpoly_pos hc1' hA' _ ht ht1
+  linarith
+
+/-- ★ `D_pos_mono`, sample size: for a certified table `D(n) > D(m)` whenever `1 ≤ n < m` -/
+theorem D_decreasing_n_of_tableOK {c1 : ℚ} {es : List Entry} (h : tableOK c1 es = true) {e : Entry} (he : e ∈ es)
+    {c : K} (hc : (e.lo : K) ≤ c) {n m : ℕ} (hn : 0 < n) (hnm : n < m) {tn tm : K} (htn : 0 < tn) (htm : 0 < tm)
+    (hn' : (n : K) * tn ^ 2 = 1) (hm' : (m : K) * tm ^ 2 = 1) :
+    Dpoly c (c1 : K) (e.A : K) tm < Dpoly c (c1 : K) (e.A : K) tn := by
+  obtain ⟨hA, hlo, _⟩ := tableOK_entry h he
+  have hc1 := tableOK_c1 h
+  have hA' : (0 : K) ≤ (e.A : K) := by exact_mod_cast hA
+  have hc1' : (0 : K) ≤ (c1 : K) := by exact_mod_cast hc1
+  have hlo' : 2 * (c1 : K) + 3 * (e.A : K) < (e.lo : K) := by exact_mod_cast hlo
+  exact D_decreasing_n hc1' hA' (lt_of_lt_of_le hlo' hc) hn hnm htn htm hn' hm'
+
+/-- ★ `D_pos_mono`, level: for a certified table the smaller level has the larger `D` at every `n ≥ 1` -/
+theorem D_decreasing_alpha_of_tableOK {c1 : ℚ} {es : List Entry} (h : tableOK c1 es = true) {e e' : Entry}
+    (he : e ∈ es) (he' : e' ∈ es) (hk : e.key < e'.key) {c c' t : K} (hc : (e.lo : K) ≤ c)
+    (hc' : c' ≤ (e'.hi : K)) (ht : 0 < t) (ht1 : t ≤ 1) :
+    Dpoly c' (c1 : K) (e'.A : K) t < Dpoly c (c1 : K) (e.A : K) t := by
+  obtain ⟨h1, h2⟩ := tableOK_pair h he he' hk
+  have h1' : (e'.hi : K) < (e.lo : K) := by exact_mod_cast h1
+  have h2' : (e.A : K) - (e'.A : K) < (e.lo : K) - (e'.hi : K) := by exact_mod_cast h2
+  exact D_decreasing_alpha h1' h2' hc hc' ht ht1
+
+end D
+
+/-! ### the model's `d_alpha` -/
+
+/-- what the driver computes for a tabulated level -/
+theorem dAlphaWith_formula {c1 : ℚ} {tbl : List (ℚ × ℚ)} {dflt : Option ℚ} {α A : ℚ} (h : lookup tbl α = some A)
+    {n : ℕ} (hn : n ≠ 0) (r1 r2 : ℚ) :
+    dAlphaWith c1 tbl dflt n α r1 r2 = .ok (r1 - c1 * (1 / (n : ℚ)) - A * r2) := by
+  simp [dAlphaWith, h, hn]
+
+/-- with the exact values `r1 = c_α/√n`, `r2 = n^(-3/2)` (here for rational `t = 1/√n`) it is `Dpoly` -/
+theorem dAlphaWith_eq_Dpoly {c1 : ℚ} {tbl : List (ℚ × ℚ)} {dflt : Option ℚ} {α A : ℚ} (h : lookup tbl α = some A)
+    {n : ℕ} (hn : n ≠ 0) (c t : ℚ) (ht : (n : ℚ) * t ^ 2 = 1) :
+    dAlphaWith c1 tbl dflt n α (c * t) (t ^ 3) = .ok (Dpoly c c1 A t) := by
+  rw [dAlphaWith_formula h hn]
+  have hn' : (n : ℚ) ≠ 0 := by exact_mod_cast hn
+  have : t ^ 2 = 1 / (n : ℚ) := by rw [eq_div_iff hn']; linarith
+  rw [← this]; rfl
+
+/-- ★ `unsupported_alpha_rejected`: a level the table has no constant for raises `ValueError` (for every `n`, also `n = 0`) -/
+theorem unsupported_alpha_rejected {α : ℚ} (h : lookup table α = none) (n : ℕ) (r1 r2 : ℚ) :
+    dAlpha n α r1 r2 = .error .Value := by
+  simp [dAlpha, dAlphaWith, h, dflt]
+
+theorem lookup_table_none_iff (α : ℚ) : lookup table α = none ↔ α ≠ k010 ∧ α ≠ k005 ∧ α ≠ k0025 := by
+  simp only [table, lookup]
+  split_ifs with h1 h2 h3 <;> simp [*]
+
+/-- the three supported levels are answered for every `n ≥ 1` -/
+theorem supported_alpha_answered {α : ℚ} (h : α = k010 ∨ α = k005 ∨ α = k0025) {n : ℕ} (hn : n ≠ 0) (r1 r2 : ℚ) :
+    ∃ A, lookup table α = some A ∧ dAlpha n α r1 r2 = .ok (r1 - c1 * (1 / (n : ℚ)) - A * r2) := by
+  have hne1 : k005 ≠ k010 := by decide +kernel
+  have hne2 : k0025 ≠ k010 := by decide +kernel
+  have hne3 : k0025 ≠ k005 := by decide +kernel
+  rcases h with rfl | rfl | rfl
+  · have hl : lookup table k010 = some (256 / 100000) := by simp [table, lookup]
+    exact ⟨_, hl, dAlphaWith_formula hl hn r1 r2⟩
+  · have hl : lookup table k005 = some (5256 / 100000) := by simp [table, lookup, hne1]
+    exact ⟨_, hl, dAlphaWith_formula hl hn r1 r2⟩
+  · have hl : lookup table k0025 = some (11282 / 100000) := by simp [table, lookup, hne2, hne3]
+    exact ⟨_, hl, dAlphaWith_formula hl hn r1 r2⟩
+
+
+/-! non-vacuity of the `D` hypotheses: the table of the code with brackets of `√(ln(1/α)/2)`, `t₁ = 1`, `t₄ = 1/2` -/
+example : tableOK c1 [⟨k010, 256/100000, 10729/10000, 10731/10000⟩, ⟨k005, 5256/100000, 12238/10000, 12240/10000⟩,
+    ⟨k0025, 11282/100000, 13581/10000, 13583/10000⟩] = true := by decide +kernel
+example : (0 : ℕ) < 1 ∧ (1 : ℕ) < 4 ∧ ((1 : ℕ) : ℚ) * 1 ^ 2 = 1 ∧ ((4 : ℕ) : ℚ) * (1/2) ^ 2 = 1 := by norm_num
+example : 0 < Dpoly (10729/10000 : ℚ) c1 (256/100000) (1/2) := by norm_num [Dpoly, c1]
+
+example : dAlpha 5 (1/5) (1/2) (1/10) = .error .Value := by decide +kernel
+example : dAlpha 4 k005 (1/2) (1/8) = .ok (1/2 - c1 * (1/4) - 5256/100000 * (1/8)) := by decide +kernel
+
 end Pun.KS
